@@ -3,8 +3,8 @@ import itertools
 
 ID = "C06"
 HARNESS_PKG = "h_c06"
-COQ_IMPORTS = "From PV Require Import Model.Heights Model.Cursor Oracle.C06."
-COQ_SHARD = 600
+COQ_IMPORTS = "From PV Require Import Model.Heights Model.Cursor Oracle.C06.\nOpen Scope N_scope."
+COQ_SHARD = 300
 TECHNIQUE = ("Coq proof (induction over the local height map: the diff read through lookup equals the range specification; "
              "merge of the diff = pointwise maximum) + differential correspondence of the Gallina model with the real "
              "p2panda_core::logs::compare and Cursor::compare")
@@ -24,7 +24,7 @@ RULE = ("both tiers: all 289 map pairs over 1 author x 2 logs x heights {-,0,1,2
         "2 authors x 1 log x {absent, empty, 0,1,2}; quick adds 600 random pairs from the 83 521-pair domain 2 authors x 2 logs x {-,0,1,2} (with absent/empty "
         "authors) and 200 random larger pairs (<= 12 authors x 6 logs, remote derived from local by dropping/equal/behind/ahead per log, whole-author copies "
         "for the == shortcut, heights up to u32::MAX); thorough adds the whole 10 000-pair domain 2 authors x 2 logs x {-,0,1}, 5000 random pairs of the "
-        "83 521-pair domain and 3000 random pairs up to 50 authors x 10 logs. "
+        "83 521-pair domain and 3000 random pairs up to 30 authors x 8 logs. "
         "non-trivial = the diff has at least one range and at least one local log is not in the diff (remote equal or ahead)")
 
 
@@ -121,7 +121,7 @@ def gen(tier, rng):
         for _ in range(5000):
             yield {"L": rng.choice(big), "R": rng.choice(big)}
         for _ in range(3000):
-            yield _rand_pair(rng, 50, 10)
+            yield _rand_pair(rng, 30, 8)
 
 
 def _line(m):
@@ -139,7 +139,7 @@ def harness_line(case):
 
 
 def _coq_heights(m):
-    return "[" + ";".join("(%d%%N,[%s])" % (a, ";".join("(%d%%N,%d%%N)" % (l, h) for l, h in inner)) for a, inner in m) + "]"
+    return "[" + ";".join("(%d,[%s])" % (a, ";".join("(%d,%d)" % (l, h) for l, h in inner)) for a, inner in m) + "]"
 
 
 def coq_model(case):
@@ -163,11 +163,11 @@ def _parse_diff(s):
 
 
 def _coq_opt(x):
-    return "None" if x is None else "Some %d%%N" % x
+    return "None" if x is None else "Some %d" % x
 
 
 def _coq_ranges(d):
-    return "[" + ";".join("(%d%%N,[%s])" % (a, ";".join("(%d%%N,(%s,%s))" % (l, _coq_opt(f), _coq_opt(u)) for l, f, u in inner))
+    return "[" + ";".join("(%d,[%s])" % (a, ";".join("(%d,(%s,%s))" % (l, _coq_opt(f), _coq_opt(u)) for l, f, u in inner))
                           for a, inner in d) + "]"
 
 
